@@ -40,11 +40,17 @@ type State struct {
 	allDirty *dirtyRec
 }
 
-// dirtyRec: the heap was havoc'd; if frame is set, objects below bound kept
-// their entry values.
+// dirtyRec: heaps were havoc'd before their first use; if frame is set,
+// objects below bound kept their entry values. Versions materialised from a
+// record are shared by all states that carry the same record.
 type dirtyRec struct {
 	frame bool
 	bound string
+	made  map[string]*Heap
+}
+
+func newDirty(frame bool, bound string) *dirtyRec {
+	return &dirtyRec{frame: frame, bound: bound, made: map[string]*Heap{}}
 }
 
 func (s *State) clone() *State {
@@ -62,24 +68,23 @@ func (s *State) clone() *State {
 	return n
 }
 
-func weaker(a, b *dirtyRec) *dirtyRec {
+// combine: the effect of two havocs (in sequence or on joining paths).
+func combine(a, b *dirtyRec) *dirtyRec {
 	if a == nil {
 		return b
 	}
-	if b == nil {
+	if b == nil || a == b {
 		return a
 	}
-	if !a.frame {
-		return a
-	}
-	if !b.frame {
-		return b
-	}
-	return a // both framed: the earlier (smaller) bound was recorded first
+	return newDirty(a.frame && b.frame, a.bound)
 }
 
 func (s *State) markDirty(name string, r *dirtyRec) {
-	s.dirty[name] = weaker(s.dirty[name], r)
+	if old, ok := s.dirty[name]; ok && old != r {
+		s.dirty[name] = newDirty(old.frame && r.frame, old.bound)
+		return
+	}
+	s.dirty[name] = r
 }
 
 func heapSort(k Kind, indexed bool) string {
@@ -120,13 +125,21 @@ func (e *Enc) heapS(st *State, name, srt string, indexed bool) *Heap {
 		return h
 	}
 	h := e.entryHeapS(name, srt, indexed)
-	d := weaker(st.dirty[name], st.allDirty)
+	d := combine(st.dirty[name], st.allDirty)
 	if d != nil {
-		nh := e.newHeapVersion(h, "d")
-		if d.frame {
-			nh.Prev, nh.Bound, nh.IsFrm = h, d.bound, true
+		if mh, ok := d.made[name]; ok {
+			h = mh
+		} else {
+			nh := e.newHeapVersion(h, "d")
+			if d.frame {
+				nh.Prev, nh.Bound, nh.IsFrm = h, d.bound, true
+			}
+			d.made[name] = nh
+			if st.dirty[name] != nil && st.allDirty != nil && st.dirty[name] != st.allDirty {
+				st.dirty[name] = d
+			}
+			h = nh
 		}
-		h = nh
 	}
 	st.heaps[name] = h
 	return h
@@ -212,8 +225,48 @@ func (e *Enc) load(st *State, loc *Loc) Val {
 		ts[i] = e.sel(h, loc.Base, loc.Idx)
 	}
 	v := build(loc.Sh, &ts)
+	e.entryClosure(loc, ls)
 	e.assumeLoaded(st, v)
 	return v
+}
+
+// entryClosure: at function entry, references stored in objects that existed
+// then point to objects that existed then. Stated about the entry heaps, so it
+// carries over to the current heap exactly where nothing was written.
+func (e *Enc) entryClosure(loc *Loc, ls []leafInfo) {
+	if e.entry == nil || e.inQuant > 0 || e.nextEntry != "next0" {
+		return
+	}
+	key := "ec:" + loc.Path + "@" + loc.Base + "@" + loc.Idx
+	if e.lemmaDone[key] {
+		return
+	}
+	e.lemmaDone[key] = true
+	old := func(name string, k Kind) string {
+		indexed := strings.Contains(name, "[]")
+		h := e.entryHeapS(name, heapSort(k, indexed), indexed)
+		if indexed {
+			return fmt.Sprintf("(select (select %s %s) %s)", h.Term, loc.Base, loc.Idx)
+		}
+		return fmt.Sprintf("(select %s %s)", h.Term, loc.Base)
+	}
+	pre := fmt.Sprintf("(and (<= 0 %s) (< %s next0))", loc.Base, loc.Base)
+	for i, l := range ls {
+		switch {
+		case strings.HasSuffix(l.Path, "#base"):
+			e.assert(fmt.Sprintf("(=> %s (< %s next0))", pre, old(loc.Path+l.Path, l.K)))
+		case strings.HasSuffix(l.Path, "#val"):
+			typ := old(loc.Path+strings.TrimSuffix(l.Path, "#val")+"#typ", KInt)
+			// interface fields of the input AST hold no typed-nil pointers (part of the AST invariant)
+			e.assert(fmt.Sprintf("(=> (and %s (isptrtype %s)) (and (< 0 %s) (< %s next0)))", pre, typ, old(loc.Path+l.Path, l.K), old(loc.Path+l.Path, l.K)))
+		case l.K == KInt && l.Sh != nil && l.Sh.T != nil:
+			switch l.Sh.T.Underlying().(type) {
+			case *types.Pointer, *types.Map:
+				e.assert(fmt.Sprintf("(=> %s (< %s next0))", pre, old(loc.Path+l.Path, l.K)))
+			}
+		}
+		_ = i
+	}
 }
 
 // assumeLoaded adds the closure facts for a value read from memory or
@@ -229,7 +282,7 @@ func (e *Enc) assumeLoaded(st *State, v Val) {
 			b, o, l, c := v.Sub[0].T, v.Sub[1].T, v.Sub[2].T, v.Sub[3].T
 			e.assume(fmt.Sprintf("(and (<= 0 %s) (< %s %s) (<= 0 %s) (<= 0 %s) (<= %s %s) (<= (+ %s %s) 281474976710656) (=> (= %s 0) (= %s 0)))", b, b, st.next, o, l, l, c, o, c, b, c))
 		case KIface:
-			e.assume(fmt.Sprintf("(and (<= 0 %s) (=> (= %s 0) (= %s 0)) (=> (isptrtype %s) (and (< 0 %s) (< %s %s))))", v.Sub[0].T, v.Sub[0].T, v.Sub[1].T, v.Sub[0].T, v.Sub[1].T, v.Sub[1].T, st.next))
+			e.assume(fmt.Sprintf("(and (<= 0 %s) (=> (= %s 0) (= %s 0)) (=> (isptrtype %s) (and (<= 0 %s) (< %s %s))))", v.Sub[0].T, v.Sub[0].T, v.Sub[1].T, v.Sub[0].T, v.Sub[1].T, v.Sub[1].T, st.next))
 		case KStruct, KTuple:
 			for _, s := range v.Sub {
 				rec(s)
@@ -247,8 +300,10 @@ func (e *Enc) assumeRange(st *State, v Val) {
 		lo, hi := intRange(v.Sh)
 		e.assume(fmt.Sprintf("(and (<= %s %s) (<= %s %s))", lo, v.T, v.T, hi))
 	case *types.Pointer, *types.Map, *types.Chan:
-		_ = t
 		e.assume(fmt.Sprintf("(and (<= 0 %s) (< %s %s))", v.T, v.T, st.next))
+		if pt, ok := t.(*types.Pointer); ok {
+			e.assumeTypeInv(v, pt.Elem())
+		}
 	case *types.Signature:
 		e.assume(fmt.Sprintf("(<= 0 %s)", v.T))
 	}
@@ -356,9 +411,9 @@ func (e *Enc) mergeStates(conds []string, sts []*State) *State {
 	}
 	out := &State{heaps: map[string]*Heap{}, ghosts: map[string]Val{}, dirty: map[string]*dirtyRec{}}
 	for _, s := range sts {
-		out.allDirty = weaker(out.allDirty, s.allDirty)
+		out.allDirty = combine(out.allDirty, s.allDirty)
 		for k, d := range s.dirty {
-			out.markDirty(k, d)
+			out.dirty[k] = combine(out.dirty[k], d)
 		}
 	}
 	names := map[string]bool{}
@@ -532,3 +587,33 @@ func implies(a, b string) string {
 type unsupportedErr struct{ msg string }
 
 func unsupported(msg string) unsupportedErr { return unsupportedErr{msg} }
+
+// assumeTypeInv instantiates the declared type invariant of T for an object
+// that already existed at function entry, in the entry state. (Objects under
+// construction in this function are not covered.)
+func (e *Enc) assumeTypeInv(v Val, elem types.Type) {
+	if e.entry == nil || e.invDepth > 2 || e.inQuant > 0 || v.Loc != nil {
+		return
+	}
+	n, ok := elem.(*types.Named)
+	if !ok {
+		return
+	}
+	invs := e.w.contracts.TypeInvs[n.Obj().Name()]
+	if len(invs) == 0 || n.Obj().Pkg() == nil || n.Obj().Pkg().Path() != repoPkgPath {
+		return
+	}
+	key := "tinv:" + n.Obj().Name() + "@" + v.T
+	if e.lemmaDone[key] {
+		return
+	}
+	e.lemmaDone[key] = true
+	e.invDepth++
+	defer func() { e.invDepth-- }()
+	env := &SpecEnv{vars: map[string]Val{"self": v}, st: e.entry}
+	for _, c := range invs {
+		t := e.safeEvalBool(c, env)
+		e.assume(fmt.Sprintf("(=> (and (not (= %s 0)) (< %s next0)) %s)", v.T, v.T, t))
+		e.usedTypeInvs[n.Obj().Name()+": "+c.Text] = true
+	}
+}
